@@ -407,7 +407,7 @@ func TestC48(t *testing.T) {
 		}
 		c["cseed"] = rnd.Int63n(1 << 30)
 		batch = append(batch, c)
-		if len(batch) == 40 {
+		if len(batch) == 100 {
 			runBatch(batch)
 			batch = nil
 		}
